@@ -89,9 +89,19 @@ class NetInterp(Interp):
             return list(args)
         if name in ('warnings.warn',):
             return None
+        if name in ('any', 'all') and len(args) == 1 and not kwargs and isinstance(args[0], (list, tuple)) \
+                and all(isinstance(v, bool) for v in args[0]):
+            return any(args[0]) if name == 'any' else all(args[0])
+        if name == 'int' and len(args) == 1 and not kwargs and isinstance(args[0], int) and not isinstance(args[0], bool):
+            return args[0]
         if name == 'len' and len(args) == 1 and isinstance(args[0], (set, frozenset)):
             return len(args[0])
         return super().builtin(n, name, args, kwargs)
+
+    def eval(self, n, env):
+        if isinstance(n, ast.Name) and n.id in ('any', 'all') and n.id not in env:
+            return Builtin(n.id)
+        return super().eval(n, env)
 
     def attribute(self, n, env):
         if isinstance(n.value, ast.Name) or isinstance(n.value, ast.Attribute):
